@@ -173,7 +173,7 @@ def matmul_dense_mismatch(ob, d, k, nb):
         't_on_tensor', 'sum_out_of_range', 'sum_negative', 'sum_bad_type', 'mprod_on_ttm', 'mprod_size', 'mprod_bad_args', 'mprod_mode_range',
         'qtt_not_list', 'qtt_shape', 'getitem_too_few', 'getitem_too_many', 'getitem_int_range', 'getitem_float', 'getitem_two_ellipsis',
         'getitem_int_on_order2', 'getitem_slice_on_order2', 'getitem_ttm_ellipsis', 'getitem_ttm_mixed', 'set_core_index', 'set_core_rank',
-        'fast_matvec_not_tt', 'fast_matvec_kinds', 'to_qtt_not_power', 'to_qtt_ttm_rect', 'ctor_bad_source', 'getitem_str')],
+        'fast_matvec_not_tt', 'fast_matvec_kinds', 'fast_matvec_shape', 'fast_matvec_order', 'mprod_list_len', 'getitem_ttm_odd', 'to_qtt_not_power', 'to_qtt_ttm_rect', 'ctor_bad_source', 'getitem_str')],
           expect='raise', replay='misuse')
 def method_misuse(ob, case):
     ex = ob.ex
@@ -249,6 +249,24 @@ def method_misuse(ob, case):
     elif case == 'fast_matvec_kinds':
         A = ob.tt('A', 2, ttm=True)
         ob.ret = call(A, 'fast_matvec', ob.tt('B', 2, ttm=True, M=A.N_))
+    elif case == 'fast_matvec_shape':
+        from . import hooks
+        hooks.install(ex)
+        A = ob.tt('A', 2, ttm=True)
+        x = ob.tt('x', 2)
+        ex.assume(z3.Or(x.N_[0] != A.N_[0], x.N_[1] != A.N_[1]))        # includes size-1 modes (einsum would broadcast them)
+        ob.ret = call(A, 'fast_matvec', x)
+    elif case == 'fast_matvec_order':
+        from . import hooks
+        hooks.install(ex)
+        A = ob.tt('A', 2, ttm=True)
+        ob.ret = call(A, 'fast_matvec', ob.tt('x', 3, N=A.N_ + [z3.Int('n_extra')]))
+    elif case == 'mprod_list_len':
+        x = ob.tt('x', 2)
+        ob.ret = call(x, 'mprod', [T.atom_tensor('F', [z3.Int('L'), x.N_[0]])], [0, 1])
+    elif case == 'getitem_ttm_odd':
+        x = ob.tt('x', 2, ttm=True)
+        ob.ret = ex.optable.subscript(ex, x, (0, 0, 0, 0, 0))
     elif case == 'to_qtt_not_power':
         x = ob.tt('x', 2, ttm=True, N=[6, 4], M=[6, 4])
         ob.ret = call(x, 'to_qtt')
@@ -266,7 +284,8 @@ def method_misuse(ob, case):
         'kron_kinds', 'kron_bad', 'dot_not_tt', 'dot_ttm', 'dot_size', 'dot_order', 'dot_axis_order', 'dot_axis_size', 'bilinear_types', 'bilinear_kinds', 'bilinear_shape',
         'cat_ttm', 'cat_size_before', 'cat_size_after', 'cat_size_both', 'cat_order', 'pad_too_many', 'diag_not_tt', 'permute_not_tt', 'permute_len', 'permute_dup',
         'permute_range', 'reshape_count', 'reshape_ttm_rows', 'reshape_ttm_cols', 'reshape_ttm_swap', 'reshape_ttm_second', 'save_not_tt', 'random_bad_R', 'random_len_R', 'zeros_not_list', 'ones_not_list', 'amen_mv_types', 'amen_mv_kinds', 'amen_mv_shape',
-        'amen_solve_types', 'amen_solve_kinds', 'amen_solve_square', 'amen_solve_shape', 'riemann_kinds')],
+        'amen_solve_types', 'amen_solve_kinds', 'amen_solve_square', 'amen_solve_shape', 'riemann_kinds',
+        'amen_mm_types', 'amen_mm_kinds', 'amen_mm_shape', 'amen_mm_order', 'cat_dim_range', 'cat_dim_negative', 'hadamard_types', 'hadamard_kinds', 'hadamard_order')],
           expect='raise', replay='misuse')
 def function_misuse(ob, case):
     ex = ob.ex
@@ -411,6 +430,36 @@ def function_misuse(ob, case):
             b = ob.tt('b', 2)
             ex.assume(z3.Or(b.N_[0] != N[0], b.N_[1] != N[1]))
             ob.ret = ex.call(f, [A, b])
+    elif case.startswith('amen_mm'):
+        from . import hooks
+        hooks.install(ex)
+        f = ex.module('torchtt._amen').env['amen_mm']
+        A = ob.tt('A', 2, ttm=True)
+        if case == 'amen_mm_types':
+            ob.ret = ex.call(f, [A, 3])
+        elif case == 'amen_mm_kinds':
+            ob.ret = ex.call(f, [A, ob.tt('b', 2, N=A.N_)])
+        elif case == 'amen_mm_order':
+            ob.ret = ex.call(f, [A, ob.tt('B', 1, ttm=True, M=A.N_[:1])])
+        else:
+            B = ob.tt('B', 2, ttm=True)
+            ex.assume(z3.Or(B.M_[0] != A.N_[0], B.M_[1] != A.N_[1]))
+            ob.ret = ex.call(f, [A, B])
+    elif case in ('cat_dim_range', 'cat_dim_negative'):
+        a = ob.tt('a', 2)
+        b = ob.tt('b', 2, N=a.N_)
+        ob.ret = ex.call(E('cat'), [(a, b), 2 if case == 'cat_dim_range' else -3])
+    elif case.startswith('hadamard'):
+        from . import hooks
+        hooks.install(ex)
+        f = ex.module('torchtt._dmrg').env['dmrg_hadamard']
+        x = ob.tt('x', 2)
+        if case == 'hadamard_types':
+            ob.ret = ex.call(f, [x, 3])
+        elif case == 'hadamard_kinds':
+            ob.ret = ex.call(f, [x, ob.tt('A', 2, ttm=True, N=x.N_, M=x.N_)])
+        else:
+            ob.ret = ex.call(f, [x, ob.tt('y', 3, N=x.N_ + [z3.Int('n_extra')])])
     elif case == 'riemann_kinds':
         f = ex.module('torchtt.manifold').env['riemannian_projection']
         x = ob.tt('x', 2)
